@@ -75,6 +75,7 @@ int main(int argc, char **argv) {
     replay_init();
     timer_init();
     if (settle() < 0) { printf("!timer thread did not come to rest after start-up\n"); fflush(stdout); return 1; }
+    fflush(stdout);
     while (fgets(line, sizeof line, stdin)) {
         pthread_mutex_lock(&om); printf("OP %s", line); pthread_mutex_unlock(&om);
         if (line[0] == 't') {
@@ -85,6 +86,7 @@ int main(int argc, char **argv) {
             gids_update(conf->gids);
         } else continue;
         if (settle() < 0) { printf("!timer thread did not come to rest after: %s", line); fflush(stdout); return 1; }
+        pthread_mutex_lock(&om); fflush(stdout); pthread_mutex_unlock(&om);     /* an abort must not lose the log */
     }
     pthread_mutex_lock(&om);
     printf("END %ld\n", now_ms());
